@@ -76,6 +76,7 @@ type Line struct {
 	Remote bool   `json:"remote"`
 	Retry  bool   `json:"retry"`
 	Bb     bool   `json:"bb"`
+	Idq    []int  `json:"idq"` // kind watch with an ID selector matching exactly these ids (empty: none)
 }
 
 var idNames = []string{"", "a", "b", "c", "d"}
@@ -177,6 +178,11 @@ func (r *run) key(id int) vh.Key { return vh.Key{NS: ns, Typ: vh.IntType, ID: id
 
 func (r *run) emit(l Line) {
 	l.Tid = r.tid
+
+	if l.Idq == nil {
+		l.Idq = []int{}
+	}
+
 	r.tr.Emit(l)
 }
 
